@@ -23,6 +23,9 @@ PER_CALL_S = 20          # bounded liveness: one library call on <= 64 KiB of in
 HANG_CONFIRM_S = 1500    # isolated re-execution of a suspected hang, per-call limit x10
 MAX_NESTING = 300        # the property bounds nesting below the recursion limit
 SHALLOW = 60             # a RecursionError on input whose nesting estimate is at most this is a violation
+DEEP_OK = 300            # ... and so is one on input whose EXACT nesting depth (counted on the events of an iterative
+                         # parse) is at most this: the unchanged composer needs two Python frames per level, so depth 300
+                         # is 600 frames plus the harness's own (< 60) under the default recursion limit of 1000
 RULE = ('one evaluation = one load (scan | parse | compose | compose_all) x (pure Python | LibYAML) x (in memory | SimReader '
         'stream) of one corpus/synthetic document after 0-5 seeded channel faults; non-trivial = at least one fault was '
         'applied and changed the unit string; distinct = distinct digests of the delivered unit string')
@@ -361,6 +364,22 @@ def base_payload(r, rd):
             return 'noise', ''.join(rd.choice(ALPHABET_TEXT) if rd.random() < 0.6 else chr(rd.choice([rd.randrange(0x20, 0x7f), rd.randrange(0xa0, 0x3000),
                                     rd.randrange(0x10000, 0x10ffff)])) for _ in range(n)), True
         return 'noise', bytes(rd.choice(ALPHABET_BYTES) if rd.random() < 0.6 else rd.randrange(256) for _ in range(n)), False
+    if x < 0.046:
+        # nesting close to, but inside, the depth the composer supports (DEEP_OK): flow, block and mixed
+        d = rd.randint(150, 298)
+        shape = rd.randrange(5)
+        if shape == 0:
+            text = '[' * d + 'x' + ']' * d + '\n'
+        elif shape == 1:
+            text = '{a: ' * d + 'x' + '}' * d + '\n'
+        elif shape == 2:
+            text = '- ' * d + 'x\n'
+        elif shape == 3:
+            text = ''.join(' ' * i + 'k:\n' for i in range(d)) + ' ' * d + 'v\n'
+        else:
+            text = ''.join(rd.choice(['[', '{a: ', '[b, ']) for _ in range(d))
+            text += 'x\n'          # left open: the error must still be a YAMLError
+        return ('deepnest', text, True) if rd.random() < 0.6 else ('deepnest', text.encode('utf-8'), False)
     if x < 0.09:
         # tiny recursive documents (an anchor on a collection that contains its own alias): whatever walks
         # a node graph must cope with cycles, also when a fault multiplies the aliases
@@ -554,6 +573,24 @@ def nesting_estimate(units, is_text):
     return best
 
 
+def exact_depth(yaml, units):
+    """Nesting depth of the input, counted on the events of the pure-Python parser (a state machine with an explicit
+    stack, no recursion).  None when the parser itself cannot tell (it raised something that is not a YAMLError)."""
+    depth = best = 0
+    try:
+        for ev in yaml.parse(units, Loader=yaml.SafeLoader):
+            if isinstance(ev, yaml.CollectionStartEvent):
+                depth += 1
+                best = max(best, depth)
+            elif isinstance(ev, yaml.CollectionEndEvent):
+                depth -= 1
+    except yaml.YAMLError:
+        pass
+    except Exception:
+        return None
+    return best
+
+
 def check_marks(exc, units, is_text, lim):
     import yaml
     bad = []
@@ -668,6 +705,13 @@ def execute(case):
                     out['violations'].append({'class': 'recursion-error-on-shallow-input', 'detail': {
                         'load': [backend, api, via], 'nesting_estimate': nest}})
                     logparts.append([backend, api, via, 'EXC', 'RecursionError'])
+                    out['evals'] += 1
+                    break
+                d = exact_depth(yaml, units)
+                if d is not None and d <= DEEP_OK:
+                    out['violations'].append({'class': 'recursion-error-below-supported-depth', 'detail': {
+                        'load': [backend, api, via], 'nesting_estimate': nest, 'exact_depth': d}})
+                    logparts.append([backend, api, via, 'EXC', 'RecursionError', d])
                     out['evals'] += 1
                     break
                 out['extra']['recursion_errors_out_of_scope'] = out['extra'].get('recursion_errors_out_of_scope', 0) + 1
